@@ -4,6 +4,7 @@ import (
 	"crypto/tls"
 	"encoding/json"
 	"fmt"
+	"sort"
 	"strings"
 	"sync"
 	"testing"
@@ -60,11 +61,12 @@ type c15Point struct {
 	LastOnP      string
 	NonCanonical string // a SKI string handed to H's application that is not canonical
 	ShipID       string // SHIP ID stored for P, read through the canonical SKI
+	Attempts     string // keys of H's dial bookkeeping (attempt counters / running flags) and of its service records
 }
 
 func (p c15Point) comparable() string {
-	return fmt.Sprintf("Hreg=%v Hstate=%d Preg=%v Pstate=%d detail=%d/%d trusted=%v sameService=%v storedID=%s lastOnH=%s lastOnP=%s",
-		p.HReg, p.HState, p.PReg, p.PState, p.DetailCanon, p.DetailSpell, p.Trusted, p.SameService, p.ShipID, p.LastOnH, p.LastOnP)
+	return fmt.Sprintf("Hreg=%v Hstate=%d Preg=%v Pstate=%d detail=%d/%d trusted=%v sameService=%v storedID=%s lastOnH=%s lastOnP=%s bookkeeping=%s",
+		p.HReg, p.HState, p.PReg, p.PState, p.DetailCanon, p.DetailSpell, p.Trusted, p.SameService, p.ShipID, p.LastOnH, p.LastOnP, p.Attempts)
 }
 
 const settleQuiet = 1700 * time.Millisecond // > scaled dial back-off (1 s) + delayed notification (500 ms)
@@ -109,6 +111,18 @@ func runC15(sc C15Script, spelled bool, certs [2]tls.Certificate) (pts []c15Poin
 		}) {
 			return nil, "pending state not reached", ""
 		}
+	case "attempted":
+		// H has tried to reach P and failed (connection refused); P is not visible any more, so nothing
+		// is going on, but H's dial bookkeeping for P exists
+		f.Proxies[[2]int{0, 1}].SetRefuse(true)
+		h.Hub.RegisterRemoteSKI(p.SKI)
+		f.SetSees(0, 1, true)
+		if !WaitFor(8*time.Second, func() bool { return len(f.Proxies[[2]int{0, 1}].Accepts()) > 0 }) {
+			return nil, "no dial attempt seen", ""
+		}
+		f.SetSees(0, 1, false)
+		time.Sleep(50 * time.Millisecond)
+		f.Proxies[[2]int{0, 1}].SetRefuse(false)
 	case "completed":
 		h.Hub.RegisterRemoteSKI(p.SKI)
 		p.Hub.RegisterRemoteSKI(h.SKI)
@@ -203,6 +217,19 @@ func runC15(sc C15Script, spelled bool, certs [2]tls.Certificate) (pts []c15Poin
 		pt.Trusted = h.Hub.ServiceForSKI(p.SKI).Trusted()
 		pt.SameService = h.Hub.ServiceForSKI(p.SKI) == h.Hub.ServiceForSKI(name(p.SKI))
 		pt.ShipID = h.Hub.ServiceForSKI(p.SKI).ShipID() + "/" + h.Hub.ServiceForSKI(p.SKI).IPv4()
+		counters, running := h.Hub.VerifAttemptState()
+		services := h.Hub.VerifServiceKeys()
+		sort.Strings(counters)
+		sort.Strings(running)
+		sort.Strings(services)
+		// the twin runs use the same certificates, so the keys are comparable as they are
+		pt.Attempts = fmt.Sprintf("services%v", services)
+		if sc.State != "completed" {
+			// with a completed connection both hubs redial after every loss and it is a matter of timing
+			// which of them gets through (and thereby whose bookkeeping survives); in the other states
+			// only the operations under test touch the bookkeeping
+			pt.Attempts += fmt.Sprintf(" counters%v running%v", counters, running)
+		}
 		pt.LastOnH = since(h.App, p.SKI, mark)
 		pt.LastOnP = since(p.App, h.SKI, mark)
 		for _, e := range h.App.Events() {
@@ -240,7 +267,7 @@ func judgeC15(sc C15Script) (key, msg string, nontrivial bool) {
 	}
 	sp := spell("0123456789abcdef0123456789abcdef01234567", sc.Spelling)
 	for i := range a {
-		if a[i].HReg || a[i].PReg || (i > 0 && (a[i-1].HReg)) {
+		if a[i].HReg || a[i].PReg || (i > 0 && (a[i-1].HReg)) || sc.State == "attempted" {
 			nontrivial = true
 		}
 		if a[i].comparable() != b[i].comparable() {
@@ -255,7 +282,7 @@ func judgeC15(sc C15Script) (key, msg string, nontrivial bool) {
 }
 
 func genC15(t *rapid.T) C15Script {
-	sc := C15Script{State: rapid.SampledFrom([]string{"none", "none", "pending", "completed", "completed"}).Draw(t, "state")}
+	sc := C15Script{State: rapid.SampledFrom([]string{"none", "none", "pending", "completed", "completed", "attempted"}).Draw(t, "state")}
 	sc.Ops = rapid.SliceOfN(rapid.SampledFrom([]string{"register", "unregister", "disconnect", "cancel", "detail", "lookup", "setid", "setid", "unregister", "disconnect", "cancel"}), 1, 3).Draw(t, "ops")
 	sc.Spelling = make([]int, 40)
 	kind := rapid.IntRange(0, 3).Draw(t, "spellKind")
